@@ -24,6 +24,7 @@ sim::Json model_scenario(const gen::Model& m, bool ampl_flag, bool binary) {
   ex.set("ncons", (long)m.cons.size());
   ex.set("nlcons", (long)m.lcons.size());
   ex.set("nobjs", (long)m.objs.size());
+  ex.set("ncommons", (long)m.commons.size());
   ex.set("linear_clean", m.linear_clean);
   ex.set("unsupported", m.uses_unsupported);
   ex.set("all_bounded", m.all_bounded);
